@@ -58,7 +58,7 @@ def build_and_load_extension():
     scratch = tempfile.mkdtemp(prefix="c12_build_")
     try:
         env = dict(os.environ, CARGO_NET_OFFLINE="true", CARGO_TARGET_DIR=os.path.join(scratch, "target"))
-        r = subprocess.run(["cargo", "build", "--release", "--offline"], cwd="/repo/rust", env=env, capture_output=True, text=True, timeout=900)
+        r = subprocess.run(["cargo", "build", "--release", "--offline"], cwd=os.path.join(os.environ.get("SOLVOR_REPO", "/repo"), "rust"), env=env, capture_output=True, text=True, timeout=900)
         so = os.path.join(scratch, "target", "release", "lib_solvor_rust.so")
         if r.returncode != 0 or not os.path.exists(so):
             _EXT["error"] = "cargo build failed: " + (r.stderr[-400:] if r.stderr else "")
